@@ -97,6 +97,11 @@ pub fn run(name: &str, a: &Args) -> Option<String> {
                 Err(_) => "E9".to_string(),
             }
         }
+        "iso_vs_display" => {
+            let e = crate::epoch::epoch(a, 0);
+            let x = format!("{}", Formatter::new(e, consts::ISO8601));
+            (if x == format!("{e}") { "1" } else { "0" }).to_string()
+        }
         "fmt_render_const" => {
             let e = epoch(a, 0);
             let f = konst(a.z(6));
